@@ -50,6 +50,26 @@ func c17Body(t *testing.T, s *sim.Scn, o *sim.Outcome) {
 		o.Fail("C17/cannot-start", "", -1, err.Error(), "starts")
 		return
 	}
+	// restart family (cfg restart=1): the chain already has blocks (really produced, one per block interval),
+	// the node is stopped for `down` ms and started again; the loop under test is the one of the second
+	// incarnation, whose start-up wait is derived from the time of the last block.
+	restart := s.Cfg["restart"] == 1
+	if restart {
+		for i := int64(0); i < 1+s.Cfg["pre"]%3; i++ {
+			time.Sleep(bt)
+			if err := n.Produce(); err != nil {
+				o.Fail("C17/cannot-produce", "", -1, err.Error(), "produces")
+				return
+			}
+		}
+		time.Sleep(time.Duration(s.Cfg["down"]) * time.Millisecond)
+		_ = n.StopClean()
+		if err := n.StartNode(); err != nil {
+			o.Fail("C17/cannot-start", "", -1, err.Error(), "restarts")
+			return
+		}
+		o.Count("restarts-with-blocks", 1)
+	}
 	t0 := time.Now()
 	var durs []time.Duration
 	type note struct{ at time.Duration }
@@ -118,6 +138,12 @@ func c17Body(t *testing.T, s *sim.Scn, o *sim.Outcome) {
 	mode := "normal"
 	if lazy {
 		mode = "lazy"
+	}
+	if restart && !lazy && prods[0].start > bt+time.Millisecond {
+		// the start-up wait of a chain that has blocks ends one block interval after the last block at the latest
+		o.Fail("C17/normal-mode-interval-missed", "C17/normal-mode-interval-missed/after-restart", 0,
+			fmt.Sprintf("restarted on a chain with blocks: first production %v after the loop started, block interval %v", prods[0].start, bt), "one block per block interval")
+		return
 	}
 	ratio := "idle>=block"
 	if lazy && lz < bt {
@@ -189,9 +215,11 @@ func c17Body(t *testing.T, s *sim.Scn, o *sim.Outcome) {
 				inflight = true
 			}
 		}
-		if nt.at < prods[0].start {
+		if nt.at < prods[0].start && !restart {
 			// a notification during the start-up delay is served by the first production, which starts as
-			// soon as the loop runs (the start-up delay itself is not part of the statement)
+			// soon as the loop runs (the start-up delay of a new chain - waiting for the genesis time - is not
+			// part of the statement). A node restarted on a chain that has blocks is a running sequencer: it
+			// owes the block within one block interval like at any other time.
 			continue
 		}
 		if tp+bt+time.Millisecond >= end {
@@ -244,6 +272,14 @@ func c17Gen(r *rand.Rand, tier string) *sim.Scn {
 		blocks = 12 + r.IntN(30)
 		s.Cfg["run"] = bt * int64(blocks)
 	}
+	if r.IntN(5) == 0 {
+		// restart family: short second incarnation, notifications concentrated in its first idle interval
+		s.Cfg["restart"], s.Cfg["pre"] = 1, r.Int64N(3)
+		lzNow := s.Cfg["lz"]
+		s.Cfg["down"] = []int64{0, bt / 3, bt, lzNow / 2, lzNow, 2 * lzNow}[r.IntN(6)]
+		blocks = 6 + r.IntN(20)
+		s.Cfg["run"] = max64(bt*int64(blocks), 3*lzNow)
+	}
 	pSlow := r.IntN(60)
 	for i := 0; i < blocks; i++ {
 		d := int64(0)
@@ -255,6 +291,11 @@ func c17Gen(r *rand.Rand, tier string) *sim.Scn {
 	nn := r.IntN(blocks)
 	for i := 0; i < nn; i++ {
 		s.Ops = append(s.Ops, sim.Op{K: "notify", A: r.Int64N(s.Cfg["run"]), B: r.Int64N(100000)})
+	}
+	if s.Cfg["restart"] == 1 {
+		for i := r.IntN(3); i >= 0; i-- {
+			s.Ops = append(s.Ops, sim.Op{K: "notify", A: r.Int64N(max64(1, s.Cfg["lz"])), B: r.Int64N(100000)})
+		}
 	}
 	return s
 }
